@@ -31,4 +31,6 @@ VARIANTS = [
     V("given-format-ignored-on-save", "src/soundevent/io/saver.py", "    if format is None:\n        format = infer_format(path)", "    if format is not None:\n        format = infer_format(path)", "R18.1"),
     V("format-always-inferred-on-load", "src/soundevent/io/loader.py", "    if format is None:\n        format = infer_format(path)", "    format = infer_format(path)", "R18.1"),
     V("N-format-conditional-expression", "src/soundevent/io/loader.py", "    if format is None:\n        format = infer_format(path)", "    format = infer_format(path) if format is None else format", None),
+    V("containment-test-crossed", A + "recording.py", 'if ".." in Path(os.path.normpath(path)).parts:', 'if ".." not in Path(os.path.normpath(path)).parts:', "R18.4"),
+    V("object-and-path-crossed-on-the-way-to-the-saver", "src/soundevent/io/saver.py", "return saver(obj, path, audio_dir, **kwargs)", "return saver(path, obj, audio_dir, **kwargs)", "R18.1"),
 ]
